@@ -9,10 +9,13 @@ PART = -1
 NTOK = 4
 
 
+NK = 12
+NAMES = ['ws', 'c1', 'cgrp', 'dml', 'ddl', 'cte', 'ident', 'ilist', 'kw', 'nl', 'name', 'dml2']
+
+
 def _mk(k):
     return [
         lambda: sql.Token(T.Whitespace, ' '),
-        lambda: sql.Token(T.Newline, '\n'),
         lambda: sql.Token(T.Comment.Single, '-- c\n'),
         lambda: sql.Comment([sql.Token(T.Comment.Multiline, '/* c */'), sql.Token(T.Whitespace, ' ')]),
         lambda: sql.Token(T.Keyword.DML, 'Select'),
@@ -21,6 +24,7 @@ def _mk(k):
         lambda: sql.Identifier([sql.Token(T.Name, 'a')]),
         lambda: sql.IdentifierList([sql.Identifier([sql.Token(T.Name, 'a')]), sql.Token(T.Punctuation, ','), sql.Identifier([sql.Token(T.Name, 'b')])]),
         lambda: sql.Token(T.Keyword, 'explain'),
+        lambda: sql.Token(T.Newline, '\n'),
         lambda: sql.Token(T.Name, 'x'),
         lambda: sql.Token(T.Keyword.DML, 'insert'),
     ][k]()
@@ -29,34 +33,31 @@ def _mk(k):
 def gt(kinds: List[int]) -> int:
     """
     pre: len(kinds) == NTOK
-    pre: all(0 <= k < 12 for k in kinds)
+    pre: all(0 <= k < NK for k in kinds)
     pre: PART < 0 or kinds[0] == PART
     post: _ != 2
     """
-    ks = [conc(k, 11) for k in kinds]
-    toks = [_mk(k) for k in ks]
+    ks = [NAMES[conc(k, NK - 1)] for k in kinds]
+    toks = [_mk(NAMES.index(k)) for k in ks]
     st = sql.Statement(toks)
     try:
         got = st.get_type()
     except Exception:
         return 2
-    insig = (0, 1, 2, 3)
+    insig = ('ws', 'nl', 'c1', 'cgrp')
+    typ = {'dml': 'SELECT', 'dml2': 'INSERT', 'ddl': 'CREATE OR REPLACE'}
     sig = [k for k in ks if k not in insig]
     if not sig:
         exp = 'UNKNOWN'
-    elif sig[0] == 4:
-        exp = 'SELECT'
-    elif sig[0] == 11:
-        exp = 'INSERT'
-    elif sig[0] == 5:
-        exp = 'CREATE OR REPLACE'
-    elif sig[0] == 6:
+    elif sig[0] in typ:
+        exp = typ[sig[0]]
+    elif sig[0] == 'cte':
         # WITH <cte definitions> <DML>: decided only for the well-formed shape (definitions, then
         # optional whitespace, then the DML keyword); other shapes after WITH are not in the grammar
-        rest = [k for k in ks[ks.index(6) + 1:] if k not in (0, 1)]
-        if len(rest) >= 2 and rest[0] in (7, 8) and rest[1] in (4, 11):
-            exp = 'SELECT' if rest[1] == 4 else 'INSERT'
-        elif not any(k in (4, 11) for k in rest):
+        rest = [k for k in ks[ks.index('cte') + 1:] if k not in ('ws', 'nl')]
+        if len(rest) >= 2 and rest[0] in ('ident', 'ilist') and rest[1] in ('dml', 'dml2'):
+            exp = typ[rest[1]]
+        elif not any(k in ('dml', 'dml2') for k in rest):
             exp = 'UNKNOWN'
         else:
             return 0
